@@ -1260,19 +1260,23 @@ class FnRun:
             encl[b] = hs
         return succ, rpo, back, encl
 
-    def run(self, start_bb=None, init=None):
+    def run(self, start_bb=None, init=None, stop_bbs=()):
         """returns (return value or None, guard under which the function returns, mem).
 
         With `start_bb` (a loop head) the activation starts there instead of bb0, from the locals in
         `init` ({local index: value}), and executes exactly ONE iteration of that loop: every path
         that comes back to `start_bb` along a back edge is not continued but collected in
         `self.cut_states` [(guard, mem)] -- the post-state of one loop step, over which the caller
-        asserts the loop invariant (inductive step from an arbitrary invariant-satisfying state)."""
+        asserts the loop invariant (inductive step from an arbitrary invariant-satisfying state).
+
+        `stop_bbs`: blocks at which execution is cut as well (a region of a large function: the paths that
+        reach such a block are collected in `self.stop_states[bb]` and not continued)."""
         E = self.E
         fn = self.fn
         E.encoded[fn.name] = fn.header
         succ, rpo, back, encl = self.analyse_cfg()
         self.cut_states = []
+        self.stop_states = {}
         if start_bb is not None:
             self.havoc_uninit = True
             for n, v in (init or {}).items():
@@ -1327,6 +1331,10 @@ class FnRun:
                 if start_bb is not None and tgt == start_bb and (bb, tgt) in back:
                     if E.reachable(g):
                         self.cut_states.append((g, m))
+                    continue
+                if tgt in stop_bbs:
+                    if E.reachable(g):
+                        self.stop_states.setdefault(tgt, []).append((g, m))
                     continue
                 hs = encl[tgt]
                 cmap = dict(zip(encl[bb], counts))
